@@ -166,8 +166,16 @@ func canon(sb *strings.Builder, v cadence.Value) {
 	case cadence.String:
 		sb.WriteString(strconv.Quote(string(x)))
 	case cadence.Optional:
+		// same encoding as vir: some(v) is v unless v is nil / some(nil)...
 		if x.Value == nil {
 			sb.WriteString("nil")
+		} else if _, nested := x.Value.(cadence.Optional); nested {
+			inner := Canon(x.Value)
+			if inner == "nil" || strings.HasPrefix(inner, "some(") {
+				sb.WriteString("some(" + inner + ")")
+			} else {
+				sb.WriteString(inner)
+			}
 		} else {
 			canon(sb, x.Value)
 		}
